@@ -303,6 +303,8 @@ def rotations(draw, max_givens=6):
 def rotation_matrix(givens, n):
     """Orthogonal n x n matrix = product of plane rotations (i mod n, j mod n, theta); i == j entries are skipped."""
     U = np.eye(n)
+    if n == 0:          # e.g. a spin with no active orbital left (UHF per-spin frozen lists): nothing to rotate
+        return U
     for i, j, th in givens:
         i, j = i % n, j % n
         if i == j:
